@@ -343,8 +343,8 @@ func (ff *FuncFacts) Prune(assume ...Fact) *FuncFacts {
 			known := ff.T.ineqs(FactSet(assume))
 			x, y := ff.T.affOfTerm(c.A), ff.T.affOfTerm(c.B)
 			lt := y.Sub(x)
-			lt.C--                                // y - x - 1 >= 0  ⇔ x < y
-			ge := x.Sub(y)                        // x - y >= 0      ⇔ ¬(x < y)
+			lt.C--         // y - x - 1 >= 0  ⇔ x < y
+			ge := x.Sub(y) // x - y >= 0      ⇔ ¬(x < y)
 			holds, fails := proveGE0(lt, known, 3), proveGE0(ge, known, 3)
 			if !c.Pos {
 				holds, fails = fails, holds
